@@ -271,6 +271,31 @@ def hygiene():
     return bad
 
 
+def props_output(pid, timeout=600):
+    """(rc, output) of `coqc Props/<pid>.v` (the Print Assumptions lines), cached in .work/pa_cache on the sha256 of Props/<pid>.vo."""
+    rel = 'Props/%s.v' % pid
+    vo = os.path.join(COQ, 'Props', pid + '.vo')
+    cdir = os.path.join(WORK, 'pa_cache')
+    os.makedirs(cdir, exist_ok=True)
+    cfile = os.path.join(cdir, pid + '.json')
+    try:
+        key = hashlib.sha256(open(vo, 'rb').read() + open(os.path.join(COQ, rel), 'rb').read()).hexdigest()
+    except FileNotFoundError:
+        key = None
+    if key:
+        try:
+            c = json.load(open(cfile))
+            if c.get('key') == key and c.get('rc') == 0:
+                return 0, c['out']
+        except (FileNotFoundError, ValueError):
+            pass
+    # compile a copy under another name so that the .vo the Makefile produced (and the cache key) stay untouched
+    rc, out, _ = sh('coqc -Q . TV %s -o %s' % (rel, os.path.join(cdir, pid + '.vo')), cwd=COQ, timeout=timeout)
+    if key and rc == 0:
+        json.dump({'key': key, 'rc': rc, 'out': out}, open(cfile, 'w'))
+    return rc, out
+
+
 def check_props(pid, timeout=600):
     """Compile Props/<pid>.v (after its dependencies) capturing Print Assumptions.  Returns dict:
     {theorems:[names], compiled:bool, output, assumptions:{name:[axioms]}, bad_axioms:{name:[...]}}"""
@@ -287,8 +312,9 @@ def check_props(pid, timeout=600):
     if rc != 0:
         res['output'] = out[-4000:]
         return res
-    # re-run coqc on the Props file alone to capture the Print Assumptions output deterministically
-    rc, out, _ = sh('coqc -Q . TV %s' % rel, cwd=COQ, timeout=timeout)
+    # re-run coqc on the Props file alone to capture the Print Assumptions output deterministically (cached on the hash of the
+    # freshly made .vo, which changes whenever the file or anything it depends on was rebuilt differently)
+    rc, out = props_output(pid, timeout)
     res['output'] = out[-4000:]
     if rc != 0:
         return res
